@@ -1217,8 +1217,12 @@ def c09_cli(ctx, res, limit):
     rnd = random.Random(ctx.seed * 31 + 9)
     cp = corpus(ctx)
     no_input = [e for e in cp["structured"] if not e["input"] and "input" not in e["features"]][:limit]
-    with_input = [e for e in cp["structured"] if e["input"] and e["input_taken"] > 0][:max(6, limit // 4)]
+    with_input = sorted([e for e in cp["structured"] if e["input"] and e["input_taken"] > 0], key=lambda e: e["has_break"])[:max(6, limit // 4)]
+    # input-reading programs without `.break`, moved to the front of their group: the first three
+    # run through to HALT with the debugger attached
+    with_input.sort(key=lambda e: e["has_break"])
     entries = no_input + with_input
+    under_dbg = {len(no_input) + k for k, e in enumerate(with_input[:3]) if not e["has_break"]}
     d = _dir(ctx, "c09")
     pool = ["step", "s", "si 3", "step into 10", "so", "continue", "c", "registers", "print r1", "print ^", "assembly",
             "break list", "echo x", "help", "break add ^2", "break add x{o1:04x}", "break remove x{o1:04x}", "p x{o0:04x}",
@@ -1231,6 +1235,17 @@ def c09_cli(ctx, res, limit):
         o0 = e["image"][0]
         cmds = [rnd.choice(pool).format(o0=o0, o1=(o0 + rnd.randrange(0, max(1, len(e["image"]) - 1))) & 0xFFFF) for _ in range(rnd.randrange(0, 9))]
         reads_input = bool(e["input"])
+        if ix in under_dbg:
+            # the program reads (all of) its input while the debugger is still attached, and the script
+            # simply runs out: the debugger then finds standard input at its end and detaches
+            # (no pause may come before the input is consumed - the debugger would read it as
+            # commands, legitimately: inspection commands only, then one `continue`)
+            cmds = [c for c in cmds if not c.startswith(("c", "s", "b", "q", "Q"))] + ["continue"]
+            script = ";".join(cmds)
+            stdin = bytes(e["input"][:e["input_taken"]])   # exactly the bytes the reference run consumes
+            plain = lace(ctx, ["run", name, "--minimal"] + feat(e), stdin=stdin, cwd=d, timeout=30)
+            dbg = lace(ctx, ["debug", name, "--minimal", "--command", script] + feat(e), stdin=stdin, cwd=d, timeout=30)
+            return ix, "(input read under the debugger) " + script, plain, dbg
         if reads_input:
             # stdin carries the program's input, so the script must detach explicitly
             # (no trailing delimiter after the last command)
@@ -1262,6 +1277,8 @@ def c09_cli(ctx, res, limit):
                 res.cls("l2:script_and_program_input_share_stdin")
             if script.startswith("(stdin, CRLF)"):
                 res.cls("l2:script_with_crlf_line_endings")
+            if script.startswith("(input read under the debugger)"):
+                res.cls("l2:program_input_read_under_the_debugger")
         detail = {"source": e["source"][-800:], "script": script, "stdin": e["input"], "plain": plain.brief(), "debugged": dbg.brief()}
         if dbg.rc is None or dbg.crashed:
             res.violate("C09/cli/crash", "`lace debug` crashed or hung (exit %s) where `lace run` exits %s" % (dbg.rc, plain.rc), detail)
@@ -1269,7 +1286,7 @@ def c09_cli(ctx, res, limit):
             res.violate("C09/cli/exit-status", "exit status %s under the debugger, %s without" % (dbg.rc, plain.rc), detail)
         elif dbg.out != plain.out:
             res.violate("C09/cli/stdout", "program output differs between `lace debug` and `lace run`", detail)
-    res.require(["l2:debug_vs_run", "l2:debug_vs_run_with_program_input", "l2:script_and_program_input_share_stdin"], "L2")
+    res.require(["l2:debug_vs_run", "l2:debug_vs_run_with_program_input", "l2:script_and_program_input_share_stdin", "l2:program_input_read_under_the_debugger"], "L2")
 
 
 # ------------------------------------------------------------------ C05 (L2 sample)
